@@ -121,16 +121,17 @@ func (c *Conversation) processDataMessageWithRawErrors(header, msg []byte) (plai
 		return
 	}
 
-	if err = c.keys.checkMessageCounter(dataMessage); err != nil {
-		return
-	}
-
 	sessionKeys, err := c.keys.calculateDHSessionKeys(dataMessage.recipientKeyID, dataMessage.senderKeyID, c.version)
 	if err != nil {
 		return
 	}
 
 	if err = dataMessage.checkSign(sessionKeys.receivingMACKey, header, c.version); err != nil {
+		return
+	}
+
+	// the counter of a message counts only once the message is known to be authentic
+	if err = c.keys.checkMessageCounter(dataMessage); err != nil {
 		return
 	}
 
